@@ -895,6 +895,10 @@ def check(program, rep):
     # numbers fit the 16-bit wire field and use all of it (C06-R2)
     from . import C06 as _C06
     rep.guard("C06-R2", _C06.r2_seq_numbers, program, rep, folder)
+    # fields of the system structs are read / written / packed through
+    # sark.struct: no field of it runs into its neighbour (C14-R6)
+    from . import C14 as _C14
+    rep.guard("C14-R6", _C14.r_struct_no_overlap, program, rep, "C14-R6")
     return finish(rep, program, EXPLANATION, NOT_DECIDED,
                   trusted=["slice-length and floor-division axioms of the "
                            "LININV engine", "role table in roles.py"])
